@@ -287,6 +287,8 @@ def finish(prop, tier, seed, results, task_secs, t_start):
               assumptions=COMMON_ASSUMPTIONS + info.get('assumptions', []),
               wall_s=round(time.time() - t_start, 2), violations=len(violations))
     json.dump(ev, open(os.path.join(ROOT, 'evidence', f'{prop}.json'), 'w'), indent=1, default=str)
+    if os.environ.get('VERIF_DUMP'):
+        json.dump(results, open(os.environ['VERIF_DUMP'], 'w'), indent=0, default=str)
     print(f'{prop} [{tier}]: obligations={n_obl} discharged={n_dis} bounded={len(bnd)} '
           f'covers={len(covers)} known={len(known_hits)} violations={len(violations)} '
           f'undecided={len(undecided)} errors={len(errors)} wall={time.time() - t_start:.1f}s exit={code}')
